@@ -153,6 +153,10 @@ type Summary struct {
 	ClassCounts map[string]int     `json:"class_counts"`
 	Infra       []string           `json:"infra"`
 	NonDet      []string           `json:"nondeterminism"`
+	// determinism spot checks that diverged at a select statement of the code
+	// under test where the Go runtime, not the tape, picks among ready cases
+	NonDetSelect   int      `json:"nondeterminism_runtime_select"`
+	NonDetSelectAt []string `json:"nondeterminism_runtime_select_at"`
 	DetChecked  int                `json:"determinism_checked"`
 	DetFailed   int                `json:"determinism_failed"`
 	MaxSteps    int                `json:"max_steps"`
@@ -289,6 +293,43 @@ func runOne(t *testing.T, p *Prop, tape *rt.Tape, tier string, detail bool, idx 
 }
 
 var traceOf = map[*Outcome][]string{}
+
+// selectDivergence reruns one tape with traces until two runs differ (at most
+// eight reruns) and reports the site if the first difference is the clause
+// that a select statement of the code under test took: the same goroutine, at
+// the same step, continued at two different "selected" sites.  Anything else
+// (or no divergence found) gives "".
+func selectDivergence(t *testing.T, p *Prop, rs uint64, tier string, idx uint64) string {
+	var first []string
+	for i := 0; i < 8; i++ {
+		r := runOne(t, p, rt.NewGenTape(rs), tier, true, idx)
+		if r.out == nil {
+			return ""
+		}
+		tr := traceOf[r.out]
+		delete(traceOf, r.out)
+		if first == nil {
+			first = tr
+			continue
+		}
+		n := min(len(first), len(tr))
+		for k := 0; k < n; k++ {
+			if first[k] == tr[k] {
+				continue
+			}
+			a, b := first[k], tr[k]
+			ia, ib := strings.Index(a, " @ "), strings.Index(b, " @ ")
+			if ia > 0 && ia == ib && a[:ia] == b[:ib] && strings.HasSuffix(a, " selected") && strings.HasSuffix(b, " selected") {
+				return a[:ia] + ": " + a[ia+3:] + " / " + b[ib+3:]
+			}
+			return ""
+		}
+		if len(first) != len(tr) {
+			return ""
+		}
+	}
+	return ""
+}
 
 func collapse(tr []string) []string {
 	var out []string
@@ -479,11 +520,24 @@ func explore(t *testing.T, p *Prop, tier string) {
 							}
 						}
 					}
+					// Is it the Go runtime's own choice among several ready cases of a
+					// select?  That choice is outside the tape (documented blind spot):
+					// the run is still a legal execution, it just does not replay.  Find
+					// two traced reruns that differ and look at the first difference.
+					if sel := selectDivergence(t, p, rs, tier, idx); sel != "" {
+						sum.NonDetSelect++
+						if len(sum.NonDetSelectAt) < 5 {
+							sum.NonDetSelectAt = append(sum.NonDetSelectAt, sel)
+						}
+						sum.Probes["runtime-select-choice-diverged"]++
+						goto classified
+					}
 					if len(sum.NonDet) < 5 {
 						sum.NonDet = append(sum.NonDet, fmt.Sprintf("NONDETERMINISM run %d seed %d: event log %x vs %x", idx, rs, o.EventHash, r2.out.EventHash))
 					}
 				}
 			}
+		classified:
 		}
 		if o.Class != "" {
 			sum.ClassCounts[o.Class]++
